@@ -70,6 +70,32 @@ Alt(t) == CASE PS = 1 /\ t = "t1" -> {TPaLow}
             [] PS = 4 /\ t = "t2" -> {TPaLow}
             [] OTHER -> {}
 
+\* ... and, for a topic that has parameters, the current record with ONE aspect changed: each cap lowered alone,
+\* both, raised, one lowered while the other is raised; every weight, decay, threshold, window, activation, quantum;
+\* and records that validation refuses (cap 0 with a weight, decay 1, activation 0, negative topic weight, quantum 0)
+Flip(d) == IF d = 2 THEN 4 ELSE 2
+Variants(tp) ==
+    { [tp EXCEPT !.c2 = 1], [tp EXCEPT !.c3 = 1], [tp EXCEPT !.c2 = 1, !.c3 = 1],
+      [tp EXCEPT !.c2 = @ + 1], [tp EXCEPT !.c3 = @ + 1],
+      [tp EXCEPT !.c2 = 1, !.c3 = @ + 1], [tp EXCEPT !.c2 = @ + 1, !.c3 = 1],
+      [tp EXCEPT !.c2 = MaxI(@ - 1, 1)], [tp EXCEPT !.c3 = MaxI(@ - 1, 1)],
+      [tp EXCEPT !.tw = @ + 1], [tp EXCEPT !.tw = 0],
+      [tp EXCEPT !.w1 = @ + 1], [tp EXCEPT !.q = @ + 1], [tp EXCEPT !.c1 = @ + 1], [tp EXCEPT !.c1 = 1],
+      [tp EXCEPT !.w2 = @ + 1], [tp EXCEPT !.d2 = Flip(@)],
+      [tp EXCEPT !.w3 = @ - 1], [tp EXCEPT !.d3 = Flip(@)], [tp EXCEPT !.thr = @ + 1], [tp EXCEPT !.thr = MaxI(@ - 1, 1)],
+      [tp EXCEPT !.win = @ + 1], [tp EXCEPT !.win = 0], [tp EXCEPT !.act = @ + 1], [tp EXCEPT !.act = 1],
+      [tp EXCEPT !.w3b = @ - 1], [tp EXCEPT !.d3b = Flip(@)], [tp EXCEPT !.w4 = @ - 1], [tp EXCEPT !.d4 = Flip(@)],
+      \* refused by validation
+      [tp EXCEPT !.c2 = 0, !.w2 = 1], [tp EXCEPT !.d2 = 1, !.w2 = 1], [tp EXCEPT !.act = 0, !.w3 = -1],
+      [tp EXCEPT !.tw = -1], [tp EXCEPT !.q = 0], [tp EXCEPT !.c3 = 1, !.d4 = 1] } \ {tp}
+\* what SetTopicParams offers for topic t (in simulation a rotating handful, to keep the fan-out down)
+Offered(t) ==
+    LET V == IF Scored(t) THEN Variants(TP(t)) ELSE {}
+        sq == SetToSeq(V)
+        h == Len(hist) + nref + now
+    IN Alt(t) \cup (IF ~Sim \/ V = {} THEN V
+                     ELSE {sq[((h * 7) % Len(sq)) + 1], sq[((h * 7 + 3) % Len(sq)) + 1], sq[((h + 11) % Len(sq)) + 1]})
+
 \* every message id belongs to one topic
 IdTopic(i) == IF i = "m1" THEN "t1" ELSE IF i = "m2" /\ "t2" \in Topics THEN "t2"
               ELSE IF i = "m3" THEN "t1" ELSE IF "t2" \in Topics THEN "t2" ELSE "t1"
@@ -130,7 +156,7 @@ SetApp(p, v) == /\ v # app[p] /\ DoSetApp(p, v) /\ Keep
                 /\ Rec([e |-> "setapp", p |-> p, v |-> v])
 SetIPs(p, I) == /\ conn[p] /\ I # ips[p] /\ DoSetIPs(p, I) /\ Keep
                 /\ Rec([e |-> "setips", p |-> p, ips |-> SetToSeq(I)])
-SetTopicParams(t, tp) == /\ nset < 1 /\ (IF Scored(t) THEN TP(t) # tp ELSE TRUE) /\ DoSetTopicParams(t, tp)
+SetTopicParams(t, tp) == /\ nset < 2 /\ (IF Scored(t) THEN TP(t) # tp ELSE TRUE) /\ DoSetTopicParams(t, tp)
                          /\ nset' = nset + 1 /\ UNCHANGED <<rmesh, nref>>
                          /\ Rec([e |-> "setparams", t |-> t, tp |-> tp])
 Tick(dt) == /\ now + dt <= MaxNow /\ DoTick(dt) /\ Keep
@@ -164,7 +190,7 @@ Event ==
     \/ \E k \in W(5) : Tick(1)
     \/ (Rich /\ \E k \in W(2) : GC)
     \/ (Rich /\ \E p \in Peers, I \in IPSets : SetIPs(p, I))
-    \/ (Rich /\ \E t \in Topics : \E tp \in Alt(t) : SetTopicParams(t, tp))
+    \/ (Rich /\ \E t \in Topics : \E tp \in Offered(t) : SetTopicParams(t, tp))
     \/ (Rich /\ Tick(2))
 
 Forced ==
